@@ -74,6 +74,8 @@ func init() {
 				[]string{"scale-in delete", "failed pod replaced", "update delete"}),
 			step("step-wide-ordinals", []int{1, 1, 1, oBase8 | oLeanPods, mC03}, []int{2, 1, 1, oBase8 | oLeanPods | oThreeRevs, mC03},
 				[]string{"every delete has a reason"}, []string{"scale-in delete"}),
+			step("step-two-healthy-pods", []int{2, 2, 1, oLeanPods | oThreeRevs, mC03}, []int{3, 2, 1, oLeanPods | oThreeRevs, mC03},
+				[]string{"every delete has a reason"}, []string{"scale-in delete", "update delete"}),
 		},
 		Stubs: ctlStubs, Assumptions: stepAssume, OutsideClaim: stepOutside,
 	})
@@ -83,6 +85,8 @@ func init() {
 			step("step", []int{1, 2, 1, oThreeRevs | oDeleting, mC04}, []int{2, 2, 1, oThreeRevs | oDeleting, mC04},
 				[]string{"created ordinal is desired", "created ordinal is not a delete slot", "no create for a set being deleted"},
 				[]string{"vacant ordinal filled", "finished pod re-created"}),
+			step("step-two-healthy-pods", []int{2, 2, 1, oLeanPods | oThreeRevs | oDeleting, mC04}, []int{3, 2, 1, oLeanPods | oThreeRevs | oDeleting, mC04},
+				[]string{"created ordinal is desired"}, []string{"vacant ordinal filled"}),
 			step("step-arbitrary-slots", []int{1, 2, 2, oPolicyParallel | oLeanPods | oNoRollout | oWildSlots, mC04 | mC14}, []int{1, 3, 2, oLeanPods | oWildSlots, mC04 | mC14},
 				[]string{"created ordinal is desired", "every vacant desired ordinal is created in the same reconcile"},
 				[]string{"vacant ordinal filled"}),
@@ -107,6 +111,8 @@ func init() {
 			step("step", []int{1, 2, 1, oThreeRevs, mC07}, []int{2, 2, 1, oThreeRevs, mC07},
 				[]string{"at most one pod is deleted for update per reconcile", "no update delete below the partition"},
 				[]string{"update delete seen", "create with a partition"}),
+			step("step-two-healthy-pods", []int{2, 2, 1, oLeanPods | oThreeRevs, mC07}, []int{3, 2, 1, oLeanPods | oThreeRevs, mC07},
+				[]string{"update delete only when every higher desired pod is updated and healthy"}, []string{"update delete seen"}),
 		},
 		Stubs: ctlStubs, Assumptions: stepAssume,
 		OutsideClaim: append([]string{"creation revision when the rollingUpdate block is absent (legacy status.currentReplicas rule; the statement's partition is then undefined)"}, stepOutside...),
@@ -129,6 +135,8 @@ func init() {
 			step("step", []int{1, 2, 1, oPolicyParallel | oThreeRevs, mC14}, []int{2, 2, 1, oPolicyParallel | oThreeRevs, mC14},
 				[]string{"every vacant desired ordinal is created in the same reconcile", "every live pod outside the desired set is deleted in the same reconcile"},
 				[]string{"parallel reconcile checked"}),
+			step("step-two-healthy-pods", []int{2, 2, 1, oPolicyParallel | oLeanPods | oThreeRevs, mC14}, []int{3, 2, 1, oPolicyParallel | oLeanPods | oThreeRevs, mC14},
+				[]string{"every live pod outside the desired set is deleted in the same reconcile"}, []string{"parallel reconcile checked"}),
 		},
 		Stubs: ctlStubs, Assumptions: stepAssume, OutsideClaim: stepOutside,
 	})
